@@ -172,8 +172,8 @@ func TestVerifC11(t *testing.T) {
 	// ------------------------------------------------------------------ B. Seal / Open
 	type sc struct {
 		nl, al, pl, tag int
-		exactDst       bool
-		place          int
+		exactDst        bool
+		place           int
 	}
 	var scs []sc
 	for pl := 0; pl <= 1100; pl++ {
@@ -386,6 +386,26 @@ func TestVerifC11(t *testing.T) {
 				gs.release()
 				r.Eval(fmt.Sprintf("kernel|gHashBlocks|4way=%v|%s", count >= 8, placeName(place)))
 			}
+		}
+		// copyAsm (prefix copy of ensureCapacity): every length 0..130, both placements
+		for n := 1; n <= 130; n++ {
+			for _, place := range []int{hk.PlaceEnd, hk.PlaceStart} {
+				srcV := rng.Bytes(n)
+				src := gs.get("src", srcV, place)
+				dst := gs.get("dst", make([]byte, n), place)
+				r.Journal("copyAsm len=%d place=%s", n, placeName(place))
+				p, msg, isFault, addr := hk.Try(func() { copyAsm(&dst[0], &src[0], n) })
+				if p && isFault {
+					faults++
+					r.Violation("kernel-out-of-range-access:copyAsm:"+gs.where(addr), hk.D{"len": n, "placement": placeName(place), "panic": msg})
+				} else if p {
+					r.Violation("kernel-panics:copyAsm", hk.D{"panic": msg})
+				} else if !bytes.Equal(dst, srcV) {
+					r.Violation("kernel-wrong-under-guard:copyAsm", hk.D{"len": n})
+				}
+				gs.release()
+			}
+			r.Eval(fmt.Sprintf("kernel|copyAsm|len%%8=%d", n%8))
 		}
 		// sealAsm / openAsm with the 32-byte scratch block and round keys inside the object
 		for _, c := range []sc{{12, 0, 0, 16, true, hk.PlaceEnd}, {12, 20, 17, 16, true, hk.PlaceEnd}, {13, 1, 300, 16, true, hk.PlaceStart}, {12, 16, 256, 12, true, hk.PlaceEnd}, {130, 129, 1, 16, true, hk.PlaceEnd}, {12, 7, 513, 13, true, hk.PlaceStart}} {
